@@ -11,6 +11,9 @@
 //                                          (md5(seed) repeated to len bytes, page number xor-ed into each 4 KiB page)
 //   reqs := req (';' req)*
 //   req  := 'G:' hash [':' hint] | 'H:' hash | 'P:' hash ':' content [':nocl']
+//         | 'Gb:' hash | 'Pb:' hash ':' content     the same with every pool buffer taken and the client gone
+//                                                   (handler called directly with a CloseNotifier recorder)
+//         | 'Ps:' hash ':' content                  PUT whose body is one byte shorter than its Content-Length
 // One result line per case: per request
 //   G/H: <status>,<content-length header|->,<body length|->,<body md5|->
 //   P:   <status>,<X-Keep-Replicas-Stored|->,<fresh-router GET status>.<len>.<md5> | -
@@ -337,6 +340,46 @@ func verifC01Hdr(s string) string {
 	return strings.Replace(strings.Replace(s, " ", "_", -1), ",", "_", -1)
 }
 
+// verifC01GoneRecorder is a response recorder whose client has already gone away.
+type verifC01GoneRecorder struct {
+	*httptest.ResponseRecorder
+	gone chan bool
+}
+
+func (r *verifC01GoneRecorder) CloseNotify() <-chan bool { return r.gone }
+
+// verifC01Direct calls the router directly. With starve, every buffer of the pool is held and the
+// client is reported gone, so the handler can only give up waiting for a buffer.
+func verifC01Direct(h http.Handler, req *http.Request, starve bool) *httptest.ResponseRecorder {
+	rec := httptest.NewRecorder()
+	if !starve {
+		h.ServeHTTP(rec, req)
+		return rec
+	}
+	var held [][]byte
+	for i := 0; i < bufs.Cap(); i++ {
+		held = append(held, bufs.Get(BlockSize))
+	}
+	gone := make(chan bool, 1)
+	gone <- true
+	h.ServeHTTP(&verifC01GoneRecorder{rec, gone}, req)
+	for _, b := range held {
+		bufs.Put(b)
+	}
+	// let the handler's leftover "return the buffer I was waiting for" goroutine finish
+	for i := 0; i < 1000 && bufs.Len() > 0; i++ {
+		time.Sleep(time.Millisecond)
+	}
+	return rec
+}
+
+func verifC01RecGet(rec *httptest.ResponseRecorder) string {
+	if rec.Code != 200 {
+		return fmt.Sprintf("%d,-,-,-", rec.Code)
+	}
+	return fmt.Sprintf("%d,%s,%d,%x", rec.Code, verifC01Hdr(rec.Header().Get("Content-Length")), rec.Body.Len(), md5.Sum(rec.Body.Bytes()))
+}
+
 type verifC01NoLenReader struct{ r io.Reader }
 
 func (r verifC01NoLenReader) Read(p []byte) (int, error) { return r.r.Read(p) }
@@ -434,6 +477,40 @@ func verifC01Case(line string, tmpParent string) (out string) {
 				}
 			}
 			res = fmt.Sprintf("%d,%s,%s", resp.StatusCode, verifC01Hdr(resp.Header.Get("X-Keep-Replicas-Stored")), fg)
+		case p[0] == "Gb" && len(p) == 2 && len(p[1]) == 32:
+			req, err := http.NewRequest("GET", "/"+p[1], nil)
+			if err != nil {
+				return "bad-op"
+			}
+			res = verifC01RecGet(verifC01Direct(srv.Config.Handler, req, true))
+		case (p[0] == "Pb" || p[0] == "Ps") && len(p) == 3 && len(p[1]) == 32:
+			body, err := verifC01Content(p[2])
+			if err != nil {
+				return "bad-op"
+			}
+			req, err := http.NewRequest("PUT", "/"+p[1], bytes.NewReader(body))
+			if err != nil {
+				return "bad-op"
+			}
+			if p[0] == "Ps" {
+				req.ContentLength = int64(len(body)) + 1
+			}
+			rec := verifC01Direct(srv.Config.Handler, req, p[0] == "Pb")
+			fg := "-"
+			if rec.Code == 200 {
+				srv2, err := verifC01Server(vols)
+				if err != nil {
+					return "setup-failed"
+				}
+				g := strings.Split(verifC01Get(srv2, "GET", "/"+p[1]), ",")
+				srv2.Close()
+				if len(g) == 4 {
+					fg = g[0] + "." + g[2] + "." + g[3]
+				} else {
+					fg = "malformed"
+				}
+			}
+			res = fmt.Sprintf("%d,%s,%s", rec.Code, verifC01Hdr(rec.Header().Get("X-Keep-Replicas-Stored")), fg)
 		default:
 			return "bad-op"
 		}
